@@ -15,7 +15,10 @@ struct State
     uint64_t steps = 0;               // all sqlite3_step calls
     uint64_t write_steps = 0;         // steps of statements that are not read-only
     uint64_t fault_points = 0;        // write steps + COMMIT steps seen since arm()/reset_counters()
+    uint64_t read_points = 0;         // steps of read-only statements other than COMMIT / END / ROLLBACK / RELEASE (SELECT rows, BEGIN, PRAGMA ...)
     uint64_t fail_at = 0;             // 1-based fault point to fail; 0 = disarmed
+    bool in_call = false;             // true while the harness is inside the library call under test (read points are counted only then)
+    bool fail_reads = false;          // false: fail_at counts fault_points; true: fail_at counts read_points
     int fail_code = SQLITE_IOERR;
     bool fired = false;
     bool record_sql = false;
@@ -25,16 +28,22 @@ State& state();
 inline void reset_counters()
 {
     auto& s = state();
-    s.steps = s.write_steps = s.fault_points = 0;
+    s.steps = s.write_steps = s.fault_points = s.read_points = 0;
     s.fired = false;
     s.write_sql.clear();
 }
-inline void arm(uint64_t k)
+inline void arm(uint64_t k, bool reads = false)
 {
     reset_counters();
     state().fail_at = k;
+    state().fail_reads = reads;
 }
 inline void disarm() { state().fail_at = 0; }
+struct CallScope
+{
+    CallScope() { state().in_call = true; }
+    ~CallScope() { state().in_call = false; }
+};
 }  // namespace vfshim
 
 extern "C" int verif_sqlite3_step(sqlite3_stmt* stmt);
